@@ -218,13 +218,16 @@ class Tabulated(Sub):
                 if match:
                     out.fail(sig + source + '/matching-table-rejected', 'calculate(k) raised %s on a matching table (n=%d)' % (type(raised).__name__, n),
                              kvar=spec['kvar'])
-                return out
-            if must_raise_at_calculate:
+                    return out
+                # correctly rejected here; the same table must also be rejected when it reaches a PRISM object through a System
+                # (the tables of a System hold copies of the object), see "PRISM level" below
+                out.label('mismatch-also-tried-through-System')
+            elif must_raise_at_calculate:
                 out.fail(sig + source + '/mismatched-table-accepted',
                          'calculate(k) returned instead of raising: %d values%s for a %d-point grid, k column %s' % (
                              nval, '' if kcol is None else ' / %d k rows' % len(kcol), n, spec['kvar'] if has_k else 'absent'))
                 return out
-            if match:
+            if match and raised is None:
                 got = np.asarray(got)
                 if got.shape != (n,):
                     out.fail(sig + source + '/result-shape', 'calculate(k) returned shape %s for a %d-point grid' % (got.shape, n))
